@@ -50,8 +50,14 @@ def mk(op, *a):
     return T(op, a, shape)
 
 
+PR_DIM = [False]      # print mode: True -> a sum over the coordinate axis prints as (d * term)  (uniform-coordinates view, see dim_theorems)
+
+
 def pr(t, idx=None):
     """print the scalar view of t (at index idx when t is a vector)"""
+    if t.op == "dsum":
+        s0 = pr(t.args[0], idx)
+        return f"(d * {s0})" if PR_DIM[0] else s0
     if t.op == "lit":
         v = t.val
         if isinstance(v, bool):
@@ -275,9 +281,11 @@ class Tr:
         if base in ("sum", "mean", "var", "max"):
             x = args[0] if is_ns else self.e(n.func.value)
             if base == "sum":
-                if x.shape == "s":
-                    return x            # .sum(-1) / .sum() in element view: structural, diagonal-Jacobian lemma
                 if self.elementwise:
+                    # .sum(-1) / .sum() over the coordinate axis in the element view: prints as the per-coordinate term (diagonal-Jacobian
+                    # lemma) and, in the `_dim` twin of a log-Jacobian definition, as d * term (d coordinates with the same value)
+                    return T("dsum", (x,), "s")
+                if x.shape == "s":
                     return x
                 return T("sum", (x,), "s")
             if base == "mean":
@@ -379,6 +387,23 @@ def range_theorems(records):
     return "\n".join(out)
 
 
+DIM_RECORDS = []
+
+
+def dim_theorems(records):
+    """For every element-wise log-Jacobian definition `f_lj` a twin `f_lj_dim d ...` is generated in which each sum over the coordinate axis
+    prints as d * term (all d coordinates at the same value).  The generated statement `f_lj_dim d ... = d * f_lj ...` says that every
+    additive part of the log-Jacobian is summed over the coordinates: a constant counted once per row instead of once per coordinate, which
+    the scalar element view cannot see, breaks it."""
+    out = []
+    for name, params in records:
+        ps = " ".join(f"({p} : {'Fin n → ℝ' if sh == 'v' else 'ℝ'})" for p, sh in params)
+        args = " ".join(p for p, _ in params)
+        out.append(f"-- C04 C03 every term of the log-Jacobian `{name}` is accumulated over the coordinate axis (d coordinates contribute d times the per-coordinate term)\n"
+                   f"theorem hom_{name} (d : ℝ) {ps} : {name}_dim d {args} = d * {name} {args} := by\n  simp only [{name}_dim, {name}]\n  try ring")
+    return "\n".join(out)
+
+
 def emit(name, params, t, shape_out):
     ps = " ".join(f"({p} : {'Fin n → ℝ' if sh == 'v' else 'ℝ'})" for p, sh in params)
     if shape_out == "v":
@@ -393,6 +418,7 @@ def generate(front: Front):
     out, index, errors = [], [], []
     dropped_all = {}
     RECORDS.clear()
+    DIM_RECORDS.clear()
 
     def fn(qual):
         return front.get(qual)
@@ -410,6 +436,13 @@ def generate(front: Front):
                 if t is None:
                     raise NotTranslatable(f"{name}: no value")
                 out.append(emit(name, params, t, shape if shape else t.shape))
+                if elementwise and name.endswith("_lj"):
+                    PR_DIM[0] = True
+                    try:
+                        out.append(emit(name + "_dim", [("d", "s")] + list(params), t, shape if shape else t.shape))
+                    finally:
+                        PR_DIM[0] = False
+                    DIM_RECORDS.append((name, params))
                 RECORDS.append((name, params, t))
                 index.append({"def": name, "function": qual, "source_hash": info.source_hash(), "lines": list(info.span)})
             dropped_all[qual] = dropped
